@@ -9,6 +9,7 @@ mod rng;
 mod util;
 mod areas;
 mod sched;
+mod c16;
 
 use rng::Rng;
 use std::io::Write;
